@@ -294,7 +294,12 @@ class SmtpRelayClient(RelayPoolClient):
             pass
         finally:
             if self.client:
-                self.client.io.close()
+                try:
+                    # Closing an encrypted socket waits for the peer.
+                    with Timeout(self.command_timeout):
+                        self.client.io.close()
+                except Timeout:
+                    self.client.io.socket.close()
 
     def _get_error_reply(self, exc):
         assert self.client is not None
